@@ -48,6 +48,10 @@ func checkC03(c *Ctx) {
 	})
 }
 
+// oddIDs: message identifiers / file names with leading or trailing Unicode whitespace, control
+// characters, case variants and path-like text (%d keeps them unique within a batch).
+var oddIDs = []string{"\u3000leading-ideographic-space-%d", "trailing-nbsp-%d\u00a0", "\ttab-%d\t", " both-%d ", "line\nbreak-%d", "sep\u2028-%d", "\u00a0%d\u3000", "UPPER-lower-%d", "../up-%d", "0%d", "+%d", " %d", "dot.%d."}
+
 func c03Payload(r *sched.Rng, kind int) []byte {
 	switch kind % 7 {
 	case 0:
@@ -75,7 +79,11 @@ func runC03Proposal(c *Ctx, ce *Ceremony, poly *share.PubPoly, r *sched.Rng, wi,
 		spec.Data = map[string][]byte{}
 		k := 1 + r.Intn(4)
 		for i := 0; i < k; i++ {
-			spec.Data[fmt.Sprintf("%s %d", fileNames[r.Intn(len(fileNames))], i)] = c03Payload(r, r.Intn(7))
+			name := fmt.Sprintf("%s %d", fileNames[r.Intn(len(fileNames))], i)
+			if r.Intn(3) == 0 {
+				name = fmt.Sprintf(oddIDs[r.Intn(len(oddIDs))], i)
+			}
+			spec.Data[name] = c03Payload(r, r.Intn(7))
 		}
 		shape = fmt.Sprintf("api-explicit-%d", k)
 	case 1: // API, baked range
@@ -106,7 +114,13 @@ func runC03Proposal(c *Ctx, ce *Ceremony, poly *share.PubPoly, r *sched.Rng, wi,
 				tasks = append(tasks, requests.SigningTask{MessageID: fmt.Sprintf("t%d-range", i), RangeStart: p, RangeEnd: p + 2 + r.Intn(3)})
 				shape += "R"
 			default:
-				tasks = append(tasks, requests.SigningTask{MessageID: fmt.Sprintf("id %d/%s", i, fileNames[r.Intn(len(fileNames))]), File: fileNames[r.Intn(len(fileNames))], Payload: c03Payload(r, r.Intn(7))})
+				id := fmt.Sprintf("id %d/%s", i, fileNames[r.Intn(len(fileNames))])
+				if r.Intn(2) == 0 {
+					// identifiers a normalising step would change: they are opaque and must survive as proposed
+					id = fmt.Sprintf(oddIDs[r.Intn(len(oddIDs))], i)
+					shape += "o"
+				}
+				tasks = append(tasks, requests.SigningTask{MessageID: id, File: fileNames[r.Intn(len(fileNames))], Payload: c03Payload(r, r.Intn(7))})
 				shape += "X"
 			}
 		}
